@@ -585,6 +585,88 @@ fn long_name_section(shard: Shard, rep: &mut Report) {
     }
 }
 
+/// What a writer that died between the link and the unlink of its put leaves behind: a second name, in
+/// `.kismet_temp`, for the inode that is published under the key.  Hours later that name is stale debris.  A reader
+/// opened the entry earlier; then any participant's maintenance reclaims the debris.  The earlier handle and a fresh
+/// lookup still read the whole value (reclaiming a name is not an operation on the file).
+fn stale_link_section(shard: Shard, rep: &mut Report) {
+    use crate::ops::{Checker, Dirs, Front, StackCfg, K};
+    use crate::world::Scratch;
+    use std::io::Read;
+    let mut no = 0u64;
+    for front_no in 0..3u8 {
+        for size in [Size::Five, Size::Chunks] {
+            for via in 0..3u8 {
+                no += 1;
+                if !shard.mine(no) {
+                    continue;
+                }
+                crate::run::reset_env();
+                let sc = Scratch::new();
+                let dirs = Dirs::under(&sc.root, if front_no == 2 { 1 } else { 0 });
+                let front = if front_no == 1 { Front::Sharded(2) } else { Front::Plain };
+                let key = crate::ops::key_for_shards("k", 0, 1, 2);
+                let other = crate::ops::key_for_shards("other", 0, 1, 2);
+                let home = crate::ops::candidate_dirs(&dirs.write, front, &key)[0].clone();
+                let v = Val::new(0, size);
+                let stale = crate::run::base_time_ns() as i128 - 7_200_000_000_000;
+                crate::world::plant(&home.join("k"), &v.bytes(), 0o444, stale - 120_000_000_000, stale);
+                crate::shim::passthrough(|| {
+                    std::fs::create_dir_all(home.join(".kismet_temp")).unwrap();
+                    std::fs::hard_link(home.join("k"), home.join(".kismet_temp/.tmpDEAD01")).unwrap();
+                    for r in &dirs.reads {
+                        std::fs::create_dir_all(r).unwrap();
+                    }
+                });
+                let cfg = StackCfg { writer: Some((front, if front_no == 1 { 8 } else { 4 })), readers: if front_no == 2 { vec![Front::Plain] } else { vec![] }, checker: Checker::None, auto_sync: true };
+                let cache = crate::ops::build(&cfg, &dirs, None);
+                // a reader that opened the entry before
+                let earlier = crate::shim::passthrough(|| std::fs::File::open(home.join("k")).ok());
+                let op = match via {
+                    0 => Op::Set(other.clone(), Val::new(1, Size::One)),
+                    1 => Op::Put(other.clone(), Val::new(1, Size::One)),
+                    _ => Op::Ensure(other.clone(), Pop::Value(Val::new(1, Size::One))),
+                };
+                let (_o, t) = crate::run::as_participant(0, 0, || {
+                    crate::run::trigger_fire_next(u64::MAX);
+                    crate::run::shard_draws(&[], Some(0));
+                    crate::ops::exec(&cache, &dirs, &op, &Default::default())
+                });
+                rep.evaluations += 1;
+                rep.states += 1;
+                rep.traces += 1;
+                rep.transitions += t.len() as u64;
+                rep.count("stale_link_cases", 1);
+                let label = format!("{} front, {}-byte value, maintenance through {}", ["plain", "sharded", "stacked"][front_no as usize], v.bytes().len(), op.label());
+                let mut seen: Vec<(String, Vec<u8>)> = Vec::new();
+                if let Some(mut f) = earlier {
+                    let mut b = Vec::new();
+                    let _ = crate::shim::passthrough(|| f.read_to_end(&mut b));
+                    seen.push(("the handle opened before the maintenance".into(), b));
+                }
+                let (g, _t) = crate::run::as_participant(0, 1, || {
+                    crate::run::trigger_never();
+                    crate::ops::exec(&cache, &dirs, &Op::Get(K::new("k", key.h1, key.h2)), &Default::default())
+                });
+                if let Ok(o) = g {
+                    if let Res::Hit(b) = o.res {
+                        seen.push(("a fresh lookup".into(), b));
+                    }
+                }
+                for (who, b) in seen {
+                    if b != v.bytes() {
+                        rep.violation(
+                            "content:published-inode-damaged-through-stale-link",
+                            format!("{}: {} read {} instead of the value published for the key", label, who, world::describe_bytes(&b)),
+                            serde_json::json!({"stale_link_section": true}),
+                        );
+                    }
+                }
+            }
+        }
+    }
+}
+
 pub fn run(tier: Tier, shard: Shard, rep: &mut Report) {
     rep.rule = "curated programs of 2-3 participants x 1-2 operations from {set, put, set_temp_file, ensure, get_or_update->Replace, \
         get+read-to-end, touch} over two keys with writer-distinct values (1 B, 5 B and 3 x 8 KiB written by three write calls), \
@@ -599,7 +681,7 @@ pub fn run(tier: Tier, shard: Shard, rep: &mut Report) {
         fault-free, for ensure and get_or_update x {Accept, Promote, Replace} whose populate callback fails (NotFound or another error, \
         before writing or after the first write) x 3 front-ends x 5 pre-states x {key held by a read-only level, key absent everywhere} \
         x {no checker, byte-equality checker}: the returned handle, every intermediate state, the final tree and a later lookup \
-        through a fresh handle never show an empty or cut value. And names that differ only beyond the 255th byte (or of which one extends the other there), written by set, put and ensure with multi-chunk values on the three front-ends: no lookup answers with the bytes written under the other name. Non-trivial = execution with >= 1 preemption."
+        through a fresh handle never show an empty or cut value. And names that differ only beyond the 255th byte (or of which one extends the other there), written by set, put and ensure with multi-chunk values on the three front-ends: no lookup answers with the bytes written under the other name. And a published entry with a second, two-hour-old name in .kismet_temp (a writer died between link and unlink of its put): after a maintenance that reclaims that name, a handle opened earlier and a fresh lookup read the whole value. Non-trivial = execution with >= 1 preemption."
         .into();
     rep.assumptions = vec![
         "threads with own handles stand in for processes; sequentially consistent interleaving of whole system calls".into(),
@@ -618,10 +700,16 @@ pub fn run(tier: Tier, shard: Shard, rep: &mut Report) {
     failing_populate_section(shard, rep);
     crate::run::reset_env();
     long_name_section(shard, rep);
+    crate::run::reset_env();
+    stale_link_section(shard, rep);
     rep.count("invariant_file_checks", INVARIANT_FILE_CHECKS.load(std::sync::atomic::Ordering::Relaxed));
 }
 
 pub fn replay(case: &Value, rep: &mut Report) {
+    if case.get("stale_link_section").is_some() {
+        stale_link_section(Shard { index: 0, count: 1 }, rep);
+        return;
+    }
     if case.get("long_name_section").is_some() {
         long_name_section(Shard { index: 0, count: 1 }, rep);
         return;
